@@ -261,6 +261,12 @@ def explorers(tier, seed):
             n, d = shape
             ax = axes_for(name, n, d)
             base = {"random_state": seed}
+            if shape == SHAPES[-1]:
+                # coinciding sizes: n == d, and n == d == n_clusters (shape-based dispatch cannot tell samples from features there)
+                for sq, kk in (((4, 4), 3), ((4, 4), 4), ((3, 3), 3), ((5, 5), 2)):
+                    s_ = dict(base)
+                    s_["max_clusters" if name == "Kauri" else "n_clusters"] = kk
+                    cases.append((name, s_, sq, "float64", seed))
             for form in ("float64", "fortran", "int", "float32", "list", "zero_column", "constant_column", "duplicate_rows", "scaled_1e3", "readonly", "numpy_scalars", "strided_view"):
                 cases.append((name, dict(base), shape, form, seed))
             if name in M.SPARSE and d >= 2:
